@@ -138,10 +138,11 @@ func cmdReplayCosmetic(args []string) error {
 		for v := 0; v < 2; v++ {
 			cr, err := rules.NewCosmeticRule(r.text(v), 1)
 			if err != nil {
-				return fmt.Errorf("pool rule %q rejected: %v", r.text(v), err)
+				return rejectedErr("pool rule %q rejected: %v", r.text(v), err)
 			}
 			if cr.Whitelist != r.Exc || cr.Content != selectorText[r.Content] || cr.IsGeneric() != (len(r.PermDom) == 0) {
-				return fmt.Errorf("renderer self-check failed on %q", r.text(v))
+				return rejectedErr("cosmetic rule %q is parsed differently from what the specification says (exception %v, content %q, generic %v)",
+					r.text(v), cr.Whitelist, cr.Content, cr.IsGeneric())
 			}
 		}
 	}
